@@ -2,7 +2,8 @@
    equality of whole logical dumps across packagings is checked on real containers). *)
 From Coq Require Import List NArith.
 From Jbk Require Import Base.Parser Base.Prog Format.Structs Manifest.SetLocation Container.Reader Container.Proofs Container.Embed
-  Container.EmbedPacks Content.Pack Dir.Layout.
+  Container.EmbedPacks Content.Pack Dir.Layout Container.ContainerFile
+  Base.Bytes Content.FilePack Container.EndToEnd.
 Import ListNotations.
 
 (* packs are looked for by identity inside the file at hand first ... *)
@@ -65,6 +66,51 @@ Theorem C10_manifest_open_is_translation_invariant :
     run (X ++ f) (manifest_open_p (lenN X + pos)) = res_map (shift_manifest (lenN X)) (run f (manifest_open_p pos)).
 Proof. exact manifest_open_is_translation_invariant. Qed.
 
+(* through the file: for EVERY file holding a container pack whose blocks are placed where the format says, the reader
+   lists exactly the embedded packs, and a lookup by identity finds each of them where the writer recorded it —
+   whatever the order in which the packs were concatenated *)
+Theorem C10_container_lists_its_packs :
+  forall f base h ch locs, container_at f base h ch locs ->
+    run f (container_new_p base) = Ok (map (fun l => (pl_uuid l, (base + pl_pos l, pl_size l))%N) locs).
+Proof. exact container_lists_its_packs. Qed.
+Theorem C10_embedded_pack_is_found_whatever_the_order :
+  forall f base h ch locs i l, container_at f base h ch locs -> nth_error locs i = Some l ->
+    (forall j l', j < i -> nth_error locs j = Some l' -> list_eqb (pl_uuid l') (pl_uuid l) = false) ->
+    exists ps, run f (container_new_p base) = Ok ps /\ find_uuid (pl_uuid l) ps = Some ((base + pl_pos l)%N, pl_size l).
+Proof. exact embedded_pack_is_found. Qed.
+
+(* the same bytes however packaged: Container::get_bytes returns the stored blob when the content pack is embedded in
+   the file at hand, and the SAME blob when the pack lies in a sibling file at its recorded location (alone or inside
+   another container) — same conclusion, two packagings *)
+Theorem C10_content_of_an_embedded_pack :
+  forall c fs pack_id info pos size h ch infos clusters i k j cl so b,
+  find (fun p => (pi_id p =? pack_id)%N) (mf_packs (ct_manifest c)) = Some info ->
+  find_uuid (pi_uuid info) (ct_packs c) = Some (pos, size) ->
+  content_pack_at (ct_main c) pos h ch infos clusters ->
+  nth_error infos i = Some (N.of_nat k, N.of_nat j) ->
+  nth_error clusters k = Some (cl, so) -> cl_comp cl = 0%N -> nth_error (cl_blobs cl) j = Some b ->
+  (N.of_nat j < 2 ^ 12)%N -> (N.of_nat k < 2 ^ 20)%N ->
+  exists off, get_content c fs pack_id (N.of_nat i) = Ok (CFound (N.of_nat k) (N.of_nat j) (CRaw off (lenN b)) (Some b)).
+Proof.
+  intros c fs pack_id info pos size h ch infos clusters i k j cl so b L.
+  exact (embedded_content_reads_back c fs pack_id info L pos size h ch infos clusters i k j cl so b).
+Qed.
+Theorem C10_content_of_a_pack_in_a_sibling_file :
+  forall c fs pack_id info file ps pos size h ch infos clusters i k j cl so b,
+  find (fun p => (pi_id p =? pack_id)%N) (mf_packs (ct_manifest c)) = Some info ->
+  find_uuid (pi_uuid info) (ct_packs c) = None ->
+  fs_find (pi_loc info) fs = Some file -> open_as_container file = Ok ps ->
+  find_uuid (pi_uuid info) ps = Some (pos, size) ->
+  content_pack_at file pos h ch infos clusters ->
+  nth_error infos i = Some (N.of_nat k, N.of_nat j) ->
+  nth_error clusters k = Some (cl, so) -> cl_comp cl = 0%N -> nth_error (cl_blobs cl) j = Some b ->
+  (N.of_nat j < 2 ^ 12)%N -> (N.of_nat k < 2 ^ 20)%N ->
+  exists off, get_content c fs pack_id (N.of_nat i) = Ok (CFound (N.of_nat k) (N.of_nat j) (CRaw off (lenN b)) (Some b)).
+Proof.
+  intros c fs pack_id info file ps pos size h ch infos clusters i k j cl so b L.
+  exact (sibling_content_reads_back c fs pack_id info L file ps pos size h ch infos clusters i k j cl so b).
+Qed.
+
 Print Assumptions C10_inside_the_file_first.
 Print Assumptions C10_embedded_at_the_end_of_another_file.
 Print Assumptions C10_reader_programs_are_translation_invariant.
@@ -75,3 +121,7 @@ Print Assumptions C10_content_read_is_translation_invariant.
 Print Assumptions C10_embedded_content_reads_the_same_bytes.
 Print Assumptions C10_directory_queries_are_translation_invariant.
 Print Assumptions C10_manifest_open_is_translation_invariant.
+Print Assumptions C10_container_lists_its_packs.
+Print Assumptions C10_embedded_pack_is_found_whatever_the_order.
+Print Assumptions C10_content_of_an_embedded_pack.
+Print Assumptions C10_content_of_a_pack_in_a_sibling_file.
